@@ -64,6 +64,8 @@ pub enum Pay {
     Dup,
     /// 300 KB (beyond every default body limit of the web framework; several overflow pages)
     Big,
+    /// exactly the 100 MiB limit: above every size threshold anybody could have put below it
+    Huge,
 }
 
 #[derive(Clone, Debug, PartialEq, Eq, Hash, PartialOrd, Ord)]
@@ -79,6 +81,7 @@ impl AOp {
         let pn = |p: &Pay| match p {
             Pay::Dup => ",dup",
             Pay::Big => ",big",
+            Pay::Huge => ",huge",
             Pay::Unique => "",
         };
         match self {
@@ -130,6 +133,7 @@ impl AOp {
                 let pay = match parts.get(2).map(|s| s.as_str()) {
                     Some("dup") => Pay::Dup,
                     Some("big") => Pay::Big,
+                    Some("huge") => Pay::Huge,
                     _ => Pay::Unique,
                 };
                 Some(if name == "AddVersion" {
@@ -148,6 +152,8 @@ impl AOp {
 }
 
 pub const DUP_BYTES: &[u8] = b"DUP-PAYLOAD";
+/// the servers' body limit (server/src/api/add_version.rs MAX_SIZE)
+pub const HUGE_BYTES: usize = 100 * 1024 * 1024;
 
 pub fn payload_bytes(kind: &str, pay: Pay, pos: usize, c: Cid) -> Vec<u8> {
     match pay {
@@ -157,6 +163,20 @@ pub fn payload_bytes(kind: &str, pay: Pay, pos: usize, c: Cid) -> Vec<u8> {
             let head = format!("{kind}-{pos}-{}-big:", (b'A' + c) as char).into_bytes();
             let mut v = head.clone();
             v.extend((0..300_000usize).map(|i| (i % 251) as u8 ^ head[i % head.len()]));
+            v
+        }
+        Pay::Huge => {
+            let head = format!("{kind}-{pos}-{}-huge:", (b'A' + c) as char).into_bytes();
+            let mut v = Vec::with_capacity(HUGE_BYTES);
+            v.extend_from_slice(&head);
+            let mut x: u32 = 0x9E3779B9 ^ (pos as u32).wrapping_mul(2654435761);
+            while v.len() < HUGE_BYTES {
+                x ^= x << 13;
+                x ^= x >> 17;
+                x ^= x << 5;
+                v.extend_from_slice(&x.to_le_bytes());
+            }
+            v.truncate(HUGE_BYTES);
             v
         }
     }
@@ -224,6 +244,8 @@ pub struct Alphabet {
     pub ages: Vec<i64>,
     /// also offer accepted uploads with a 300 KB payload
     pub big_payload: bool,
+    /// one limit-sized payload per history (offered while the model holds none)
+    pub huge_payload: bool,
 }
 
 impl Alphabet {
@@ -290,6 +312,13 @@ impl Alphabet {
                         pay: Pay::Big,
                     });
                 }
+                if self.huge_payload && !model.holds_huge() && model.would_accept(c, *_sid).unwrap_or(true) {
+                    out.push(AOp::AddVersion {
+                        c,
+                        id: cls.clone(),
+                        pay: Pay::Huge,
+                    });
+                }
             }
             if self.snapshots {
                 for (cls, _sid) in &ids {
@@ -310,6 +339,13 @@ impl Alphabet {
                             c,
                             id: cls.clone(),
                             pay: Pay::Big,
+                        });
+                    }
+                    if self.huge_payload && !model.holds_huge() && matches!(model.snapshot_decision(c, *_sid), Some(SnapDecision::Replace)) {
+                        out.push(AOp::AddSnapshot {
+                            c,
+                            id: cls.clone(),
+                            pay: Pay::Huge,
                         });
                     }
                 }
